@@ -117,23 +117,41 @@ def check_pair(res):
     return None
 
 
-def check_identity(cfg, which):
-    """IMF object's own N0 is irrelevant once N0 is passed; from_powerlaw == passing an IMF object"""
+def check_identity(cfg, which, model="EvolvedMF"):
+    """IMF object's own N0 is irrelevant once N0 is passed; from_powerlaw == passing an IMF object — for every model class"""
     kw = dict(cfg["kw"])
+    own = 12345.0 if which == "own_N0" else cfg["N0"]
     with warnings.catch_warnings():
         warnings.simplefilter("ignore")
         try:
-            ref = evolve_mf.EvolvedMF.from_powerlaw(cfg["m_breaks"], cfg["a_slopes"], cfg["nbins"], cfg["FeH"], cfg["tout"], cfg["esc_rate"], N0=cfg["N0"], **kw)
-            imf = PowerLawIMF(cfg["m_breaks"], cfg["a_slopes"], N0=(12345.0 if which == "own_N0" else cfg["N0"]))
-            other = evolve_mf.EvolvedMF(imf, cfg["nbins"], cfg["FeH"], cfg["tout"], cfg["esc_rate"], N0=cfg["N0"], **kw)
-        except ValueError:
+            if model == "InitialBHPopulation":
+                kw2 = {k: v for k, v in kw.items() if k in ("BH_IFMR_method", "binning_method")}
+                P = evolve_mf.InitialBHPopulation
+                ref = P.from_powerlaw(cfg["m_breaks"], cfg["a_slopes"], cfg["nbins"], cfg["FeH"], N0=cfg["N0"], natal_kicks=False, **kw2)
+                imf = PowerLawIMF(cfg["m_breaks"], cfg["a_slopes"], N0=own)
+                other = P.from_IMF(imf, cfg["nbins"], cfg["FeH"], N0=cfg["N0"], natal_kicks=False, **kw2)
+                pairs = [(ref.N, other.N), (ref.M, other.M), (np.array([ref.Ns_lost, ref.Ms_lost]), np.array([other.Ns_lost, other.Ms_lost]))]
+            else:
+                cls = getattr(evolve_mf, model)
+                args = [cfg["m_breaks"], cfg["a_slopes"], cfg["nbins"], cfg["FeH"], cfg["tout"], cfg["esc_rate"]]
+                extra = []
+                if model == "EvolvedMFWithBH":
+                    kw.pop("BH_ret_dyn", None)
+                    kw["strict_BH_target"] = False
+                    extra = [[1e-4] * len(cfg["tout"])]
+                ref = cls.from_powerlaw(*args, *extra, N0=cfg["N0"], **kw)
+                imf = PowerLawIMF(cfg["m_breaks"], cfg["a_slopes"], N0=own)
+                other = cls(imf, cfg["nbins"], cfg["FeH"], cfg["tout"], cfg["esc_rate"], *extra, N0=cfg["N0"], **kw)
+                pairs = [(getattr(ref, nm), getattr(other, nm)) for nm in ("Ns", "Ms", "alpha")]
+                pairs += [(ref.Nr[c], other.Nr[c]) for c in range(3)] + [(ref.Mr[c], other.Mr[c]) for c in range(3)]
+        except ValueError as e:
+            if which == "own_N0" and "Target `f_BH`" in str(e):
+                return {"clause": "IMF object's own N0 is irrelevant once N0 is passed", "model": model, "observed": "ValueError: " + str(e)[:100]}
             return "skip"
-    for nm in ("Ns", "Ms", "alpha"):
-        if not np.array_equal(getattr(ref, nm), getattr(other, nm), equal_nan=True):
-            return {"clause": "IMF object's own N0 is irrelevant once N0 is passed" if which == "own_N0" else "from_powerlaw is equivalent to passing the IMF object", "attr": nm}
-    for c in range(3):
-        if not (np.array_equal(ref.Nr[c], other.Nr[c], equal_nan=True) and np.array_equal(ref.Mr[c], other.Mr[c], equal_nan=True)):
-            return {"clause": "remnants differ", "which": which}
+    for k, (a, b) in enumerate(pairs):
+        if not np.array_equal(np.asarray(a), np.asarray(b), equal_nan=True):
+            return {"clause": "IMF object's own N0 is irrelevant once N0 is passed" if which == "own_N0"
+                    else "the power-law constructor is equivalent to passing the IMF object", "model": model, "array": k}
     return None
 
 
@@ -180,9 +198,11 @@ def sweep(ctx):
     for _ in range(ctx.n(6, 60) * eff):
         cfg = gen.gen_config(ctx.rng, small=True)
         for which in ("own_N0", "from_powerlaw"):
-            bad = check_identity(cfg, which)
-            ctx.sweep_case("identity", (repr(cfg), which), bad in (None, "skip"),
-                           {"failing_input": {"call": "identity", "args": {"cfg": cfg, "which": which}}, "observed": bad}, branch=which)
+            for model in ("EvolvedMF", "EvolvedMFWithBH", "InitialBHPopulation"):
+                bad = check_identity(cfg, which, model)
+                ctx.sweep_case("identity", (repr(cfg), which, model), bad in (None, "skip"),
+                               {"failing_input": {"call": "identity", "args": {"cfg": cfg, "which": which, "model": model}}, "observed": bad},
+                               branch="skipped" if bad == "skip" else which + "/" + model)
 
 
 def replay(ctx, fi):
@@ -194,7 +214,7 @@ def replay(ctx, fi):
     elif fi["call"] == "pair":
         r = check_pair(pair_worker((a["cfg"], a["lam"], a["kind"])))
     elif fi["call"] == "identity":
-        r = check_identity(a["cfg"], a["which"])
+        r = check_identity(a["cfg"], a["which"], a.get("model", "EvolvedMF"))
     else:
         raise ValueError(fi["call"])
     return None if r == "skip" else r
